@@ -354,6 +354,36 @@ func (c10) exercise(c *fw.Case, rs *jsonschema.Resolved, schemaText string, hasR
 			c.Nontrivial("ApplyDefaults|" + errClass(err))
 		}
 	}
+	// nil maps (the zero value of every map variable) where an object is expected, at the top and inside: ApplyDefaults may fill
+	// them or refuse, Validate sees null; neither may panic
+	if r.IntN(3) == 0 && !hasRefs {
+		for k := 0; k < 3; k++ {
+			var err error
+			var desc string
+			var apply func()
+			switch k {
+			case 0:
+				var m map[string]any
+				desc, apply = "nil map[string]any (pointer to it)", func() { err = rs.ApplyDefaults(&m) }
+			case 1:
+				m := map[string]map[string]any{"a": nil, "b": nil}
+				desc, apply = "map[string]map[string]any with nil members", func() { err = rs.ApplyDefaults(&m) }
+			default:
+				var x any = map[string]any(nil)
+				desc, apply = "any holding a nil map", func() { err = rs.ApplyDefaults(&x) }
+			}
+			if !c.CallChecked("ApplyDefaults", map[string]any{"schema": json.RawMessage(jsonOrString(schemaText)), "instance": desc, "source": what}, apply) {
+				return
+			}
+			c.Eval(1)
+			c.Nontrivial("ApplyDefaults(nil map)|" + errClass(err))
+		}
+		var nm map[string]any
+		if !c.CallChecked("Validate", map[string]any{"schema": json.RawMessage(jsonOrString(schemaText)), "instance": "nil map[string]any", "source": what}, func() { _ = rs.Validate(nm) }) {
+			return
+		}
+		c.Eval(1)
+	}
 	// JSON numbers that no Go number can hold / malformed json.Number texts: decided (must return, with an error or not)
 	if r.IntN(4) == 0 && !hasRefs {
 		for _, inst := range []any{json.Number("1e9999999"), json.Number("-1e9999999"), []any{json.Number("1e9999999"), json.Number("1e9999999")}, map[string]any{"a": json.Number("1E400")}, json.Number("abc"), json.Number(""), []any{json.Number("0x10"), json.Number("1")}} {
@@ -595,6 +625,7 @@ func (p c10) structCase(c *fw.Case) {
 	loaders := []jsonschema.Loader{
 		nil,
 		func(u *url.URL) (*jsonschema.Schema, error) { return nil, fmt.Errorf("injected fault for %s", u) },
+		func(u *url.URL) (*jsonschema.Schema, error) { return nil, nil }, // neither a schema nor an error
 		func(u *url.URL) (*jsonschema.Schema, error) {
 			var d jsonschema.Schema
 			json.Unmarshal([]byte(`{"$id":"http://another/uri.json","type":"integer"}`), &d)
